@@ -81,3 +81,241 @@ def long_trivial_pt(n, dim=2, dt=None):
     pt = _LongTrivialPT(hilbert_space_dimension=dim)
     pt._dt = dt
     return pt
+
+
+# ---------------------------------------------------------------------------
+# C19: fault injection into user callables, one tiny run per API that calls get_progress
+# ---------------------------------------------------------------------------
+
+class InjectedFault(Exception):
+    """raised by a user-supplied callable at a chosen invocation"""
+
+
+class Fault:
+    """Counts the invocations of a user callable once armed; raises at invocation `at`."""
+
+    def __init__(self):
+        self.armed, self.at, self.calls = False, None, 0
+
+    def arm(self, at=None):
+        self.armed, self.at, self.calls = True, at, 0
+
+    def disarm(self):
+        self.armed = False
+
+    def tick(self):
+        if self.armed:
+            self.calls += 1
+            if self.at is not None and self.calls == self.at:
+                raise InjectedFault("injected failure at invocation %d" % self.at)
+
+
+def c19_runners():
+    """name -> (table functions exercised, build) ; build() -> (faults, call(progress_type)).
+    Every run is tiny (2-level system, <= 4 steps)."""
+    sx, sz = 0.5 * op.sigma("x"), 0.5 * op.sigma("z")
+    up = op.spin_dm("z+")
+    runners = {}
+
+    def cd_build():
+        f = {"hamiltonian": Fault(), "rate": Fault(), "lindblad": Fault()}
+
+        def ham(t):
+            f["hamiltonian"].tick()
+            return sx + 0.1 * t * sz
+
+        def rate(t):
+            f["rate"].tick()
+            return 0.1
+
+        def lop(t):
+            f["lindblad"].tick()
+            return op.sigma("-")
+        sysm = oqupy.TimeDependentSystem(ham, gammas=[rate], lindblad_operators=[lop])
+        pt = identity_pt(3)
+
+        def call(progress_type):
+            return oqupy.compute_dynamics(system=sysm, initial_state=up, dt=0.1, num_steps=3,
+                                          process_tensor=pt, progress_type=progress_type)
+        return f, call
+    runners["compute_dynamics"] = (["compute_dynamics"], cd_build)
+
+    def cdshape_build():
+        # a process tensor whose tensor at step 1 has the wrong system dimension, and one
+        # whose cap tensor at step 2 is missing
+        f = {"tensor-shape": Fault(), "missing-cap": Fault()}
+        eye = np.eye(4, dtype=complex).reshape(1, 1, 4, 4)
+        bad = np.eye(9, dtype=complex).reshape(1, 1, 9, 9)
+        sysm = cheap_system()
+
+        def make(which):
+            pt = oqupy.SimpleProcessTensor(hilbert_space_dimension=2)
+            for k, m in enumerate([eye, bad if which == "tensor-shape" else eye, eye]):
+                pt.set_mpo_tensor(k, m)
+            for k in range(4):
+                if not (which == "missing-cap" and k == 2):
+                    pt.set_cap_tensor(k, np.array([1.0 + 0.0j]))
+            return pt
+
+        def call(progress_type):
+            which = [k for k, v in f.items() if v.armed and v.at is not None]
+            for v in f.values():          # "one invocation" per call, for the fault-point count
+                if v.armed and v.at is None:
+                    v.calls += 1
+            pt = make(which[0] if which else None)
+            return oqupy.compute_dynamics(system=sysm, initial_state=up, dt=0.1, num_steps=3,
+                                          process_tensor=pt, progress_type=progress_type)
+        return f, call
+    runners["compute_dynamics/shape"] = (["compute_dynamics"], cdshape_build)
+
+    def cdwf_build():
+        f = {"hamiltonian": Fault(), "field_eom": Fault()}
+
+        def ham(t, a):
+            f["hamiltonian"].tick()
+            return sx + 0.1 * np.real(a) * sz
+
+        def eom(t, states, a):
+            f["field_eom"].tick()
+            return -0.1j * a + 0.05 * np.trace(op.sigma("x") @ states[0])
+        tsys = oqupy.TimeDependentSystemWithField(ham)
+        mfs = oqupy.MeanFieldSystem([tsys], eom)
+
+        def call(progress_type):
+            return oqupy.compute_dynamics_with_field(
+                mfs, initial_field=1.0, initial_state_list=[up], dt=0.1, num_steps=3,
+                progress_type=progress_type)
+        return f, call
+    runners["compute_dynamics_with_field"] = (["compute_dynamics_with_field"], cdwf_build)
+
+    def corr_build():
+        f = {"hamiltonian": Fault()}
+
+        def ham(t):
+            f["hamiltonian"].tick()
+            return sx + 0.1 * t * sz
+        sysm = oqupy.TimeDependentSystem(ham)
+        pt = identity_pt(3, dt=0.1)
+
+        def call(progress_type):
+            return oqupy.compute_correlations(
+                system=sysm, process_tensor=pt, operator_a=op.sigma("x"),
+                operator_b=op.sigma("z"), times_a=(0.0, 0.2), times_b=(0.0, 0.2),
+                initial_state=up, start_time=0.0, dt=0.1, progress_type=progress_type)
+        return f, call
+    runners["compute_correlations"] = (["compute_correlations_nt"], corr_build)
+
+    def grad_build():
+        from oqupy.gradient import state_gradient
+        f = {"hamiltonian": Fault(), "target": Fault()}
+
+        def ham(x):
+            f["hamiltonian"].tick()
+            return x * sx + 0.3 * sz
+
+        def target(rho):
+            f["target"].tick()
+            return op.spin_dm("x+").T
+        psys = oqupy.ParameterizedSystem(ham)
+        pt = identity_pt(3, dt=0.1)
+        params = np.array([[0.3 + 0.01 * i] for i in range(6)])
+
+        def call(progress_type):
+            return state_gradient(system=psys, initial_state=up, target_derivative=target,
+                                  process_tensors=[pt], parameters=params,
+                                  progress_type=progress_type)
+        return f, call
+    runners["state_gradient"] = (["compute_gradient_and_dynamics", "_chain_rule"], grad_build)
+
+    def tempo_build():
+        f = {"hamiltonian": Fault()}
+
+        def ham(t):
+            f["hamiltonian"].tick()
+            return sx + 0.1 * t * sz
+        sysm = oqupy.TimeDependentSystem(ham)
+        tempo = cheap_tempo(0.0, 0.1, system=sysm)
+
+        def call(progress_type):
+            return tempo.compute(0.3, progress_type=progress_type)
+        return f, call
+    runners["Tempo.compute"] = (["Tempo.compute"], tempo_build)
+
+    def mft_build():
+        f = {"hamiltonian": Fault(), "field_eom": Fault()}
+
+        def ham(t, a):
+            f["hamiltonian"].tick()
+            return sx + 0.1 * np.real(a) * sz
+
+        def eom(t, states, a):
+            f["field_eom"].tick()
+            return -0.1j * a + 0.05 * np.trace(op.sigma("x") @ states[0])
+        sys_ = oqupy.TimeDependentSystemWithField(ham)
+        mfs = oqupy.MeanFieldSystem([sys_], eom)
+        mft = oqupy.MeanFieldTempo(mean_field_system=mfs, bath_list=[cheap_bath()],
+                                   initial_state_list=[up], initial_field=1.0 + 0.5j,
+                                   start_time=0.0, parameters=cheap_params(0.1))
+
+        def call(progress_type):
+            return mft.compute(0.3, progress_type=progress_type)
+        return f, call
+    runners["MeanFieldTempo.compute"] = (["MeanFieldTempo.compute"], mft_build)
+
+    def pt_build():
+        f = {"correlation": Fault()}
+
+        def corr(t):
+            f["correlation"].tick()
+            return corr_fn(t)
+        bath = oqupy.Bath(sz, oqupy.CustomCorrelations(corr))
+        # add_correlation_time makes the step loop evaluate the correlation function too
+        params = oqupy.TempoParameters(dt=0.1, epsrel=1e-4, dkmax=2, add_correlation_time=0.4)
+        ptt = oqupy.PtTempo(bath=bath, start_time=0.0, end_time=0.6, parameters=params)
+
+        def call(progress_type):
+            return ptt.compute(progress_type=progress_type)
+        return f, call
+    runners["PtTempo.compute"] = (["PtTempo.compute"], pt_build)
+
+    def gibbs_build():
+        f = {"spectral_density": Fault()}
+
+        def jw(w):
+            f["spectral_density"].tick()
+            return 0.4 * w
+        corr = oqupy.CustomSD(jw, 5.0, cutoff_type="exponential", temperature=0.5)
+        bath = oqupy.Bath(sz, corr)
+        gt = oqupy.tempo.GibbsTempo(system=cheap_system(), bath=bath,
+                                    parameters=oqupy.tempo.GibbsParameters(4, 1.0e-4))
+
+        def call(progress_type):
+            return gt.compute(progress_type=progress_type)
+        return f, call
+    runners["GibbsTempo.compute"] = (["GibbsTempo.compute"], gibbs_build)
+
+    def tebd_build():
+        f = {"process_tensor": Fault()}
+
+        class FaultyPT(oqupy.SimpleProcessTensor):
+            def get_mpo_tensor(self, step, transformed=True):
+                f["process_tensor"].tick()
+                return super().get_mpo_tensor(step, transformed)
+        pt = FaultyPT(hilbert_space_dimension=2, dt=0.1)
+        eye = np.eye(4, dtype=complex).reshape(1, 1, 4, 4)
+        for k in range(4):
+            pt.set_mpo_tensor(k, eye)
+        pt.compute_caps()
+        chain = oqupy.SystemChain(hilbert_space_dimensions=[2, 2])
+        chain.add_site_hamiltonian(site=0, hamiltonian=sz)
+        chain.add_nn_hamiltonian(site=0, hamiltonian_l=sx, hamiltonian_r=sx)
+        tebd = oqupy.PtTebd(initial_augmented_mps=oqupy.AugmentedMPS([up, up]),
+                            system_chain=chain, process_tensors=[pt, None],
+                            parameters=oqupy.PtTebdParameters(dt=0.1, order=1, epsrel=1.0e-4),
+                            dynamics_sites=[0])
+
+        def call(progress_type):
+            return tebd.compute(end_step=3, progress_type=progress_type)
+        return f, call
+    runners["PtTebd.compute"] = (["PtTebd.compute"], tebd_build)
+    return runners
